@@ -230,7 +230,8 @@ where S: Settings + 'static, SC: StorageConfig + 'static, <SC::Storage as TraceS
                 // make sure a paused sampler is resumed before waiting for completion
                 let _ = sampler.resume();
                 let start = Instant::now();
-                // non-blocking polling (`wait_timeout(0)` from an event loop) in some runs, a 50 ms wait in the others
+                // non-blocking polling (`wait_timeout(0)` from an event loop) in some runs (C11 and C13: the call that consumes a failed chain's result
+                // then returns at once), a 50 ms wait in the others
                 let (wait, limit) = if cfg2.zero_poll { (Duration::ZERO, Duration::from_secs(15)) } else { (Duration::from_millis(50), Duration::from_secs(60)) };
                 loop {
                     if cfg2.zero_poll { std::thread::sleep(Duration::from_micros(200)); }
@@ -321,7 +322,7 @@ pub fn gen_cfg(seed: u64, case: u64, tier: &str, mode: u8) -> Cfg {
     // has finished (commands after completion), then waited for or aborted
     let poll_finish = mode == 1 && case % 4 == 2;
     if poll_finish && num_draws < 10 { num_draws = 10; }
-    Cfg { gen_seed: seed, gen_tier: tier.to_string(), preset: match mode { 3 => 0, _ if big_dim.is_some() => 0, _ => (case % 3) as u8 }, seed: r.next() | 1, sched: r.next() | 1, num_chains, num_cores, num_tune, num_draws, dim: { let d = 2 + r.below(3) as usize; big_dim.unwrap_or(d) }, script, end_abort: match mode { 1 => case % 3 == 0 && case != 3, 3 => case % 2 == 0, _ => false }, poll_finish, zero_poll: mode == 1 && case % 4 == 1, flush_after_finish: false, failure }
+    Cfg { gen_seed: seed, gen_tier: tier.to_string(), preset: match mode { 3 => 0, _ if big_dim.is_some() => 0, _ => (case % 3) as u8 }, seed: r.next() | 1, sched: r.next() | 1, num_chains, num_cores, num_tune, num_draws, dim: { let d = 2 + r.below(3) as usize; big_dim.unwrap_or(d) }, script, end_abort: match mode { 1 => case % 3 == 0 && case != 3, 3 => case % 2 == 0, _ => false }, poll_finish, zero_poll: (mode == 1 || mode == 3) && case % 4 == 1, flush_after_finish: false, failure }
 }
 
 fn emit_chain_records(cases: &mut Cases, case: u64, cfg: &Cfg, events: &[(u64, u8, u64)]) {
